@@ -558,6 +558,13 @@ def reader_prog(path, ids, mode, out):
                                 # one more look: the object may have moved between the two probes
                                 if i not in s:
                                     out.append(("missing", i, "contains_packed/loose"))
+                        elif mode == "contains_packed":
+                            # ids that sit in a pack before, during and after the maintenance run (which only ever
+                            # moves them from one pack to another): a single probe must find them
+                            if not s.contains_packed(i):
+                                out.append(("missing", i, "contains_packed"))
+                        elif mode == "get_unpacked_object":
+                            s.get_unpacked_object(i)
                         elif mode == "iter":
                             pass
                     except KeyError:
@@ -679,6 +686,21 @@ def execute_sched(ctx, template, ids, mode, kind, strategy, case, check="sched")
     return inter, schedule
 
 
+def _probe_ids(template, ids, mode):
+    if mode in ("contains_packed", "get_unpacked_object"):
+        from dulwich.repo import Repo
+
+        r = Repo(template)
+        try:
+            packed = [i for i in ids if r.object_store.contains_packed(i)]
+        finally:
+            r.close()
+        if len(packed) < 3:
+            raise HarnessError("sched template has too few packed objects")
+        return packed[:: max(1, len(packed) // 5)][:5]
+    return ids[:: max(1, len(ids) // 6)][:6] if mode in ("getitem", "contains", "get_raw", "contains_packed_or_loose") else ids
+
+
 def _part_sched(ctx, item):
     import random
 
@@ -688,7 +710,7 @@ def _part_sched(ctx, item):
     ids = build_sched_repo(template)
     if kind == "git-script":
         stage_git_repack(template)
-    probe = ids[:: max(1, len(ids) // 6)][:6] if mode in ("getitem", "contains", "get_raw", "contains_packed_or_loose") else ids
+    probe = _probe_ids(template, ids, mode)
     n = 0
     steps = 1
 
@@ -720,7 +742,7 @@ def run(ctx):
     cgit.selfcheck()
     ctx.note("git_version", cgit.version())
     ctx.parallel(_part_machine, [ctx.scale(45, 1200)] * 16)
-    modes = ["getitem", "contains", "get_raw", "contains_packed_or_loose", "iter", "subset"]
+    modes = ["getitem", "contains", "get_raw", "contains_packed_or_loose", "contains_packed", "get_unpacked_object", "iter", "subset"]
     kinds = ["repack", "pack_loose", "gc", "git-script"]
     items = [(m, k, 1, ctx.scale(120, 5000)) for m in modes for k in kinds]
     ctx.parallel(_part_sched, items)
@@ -736,7 +758,7 @@ def replay(ctx, check, case):
         if case["kind"] == "git-script":
             stage_git_repack(template)
         mode = case["mode"]
-        probe = ids[:: max(1, len(ids) // 6)][:6] if mode in ("getitem", "contains", "get_raw", "contains_packed_or_loose") else ids
+        probe = _probe_ids(template, ids, mode)
         execute_sched(ctx, template, probe, mode, case["kind"], FixedSchedule(case.get("schedule", [])), case)
     else:
         raise HarnessError(f"unknown check {check!r}")
